@@ -412,7 +412,7 @@ impl Output {
         let minimal = Self::is_minimal();
         match self {
             Self::Normal => {
-                NormalWriter { minimal }
+                NormalWriter
                     .write_fmt(args)
                     .expect("`NormalWriter::write_fmt` should never fail");
             }
@@ -447,17 +447,13 @@ impl Output {
 }
 
 /// Writer for [`Output::Normal`]
-struct NormalWriter {
-    minimal: bool,
-}
+struct NormalWriter;
 impl fmt::Write for NormalWriter {
     /// Must never fail.
     fn write_str(&mut self, string: &str) -> fmt::Result {
-        if self.minimal {
-            print!("{}", Decolored::new(string));
-        } else {
-            print!("{}", string);
-        }
+        // Never filtered: in minimal mode nothing on this channel is colored by us (see
+        // `print_registers`), and an escape character printed by the *program* must reach stdout
+        print!("{}", string);
         LineTracker
             .write_str(string)
             .expect("`LineTracker::write_str` should never fail");
